@@ -2,6 +2,7 @@ package clientgen
 
 import (
 	"fmt"
+	"strconv"
 	"strings"
 
 	"google.golang.org/protobuf/compiler/protogen"
@@ -211,7 +212,7 @@ func (g *Generator) generateOneofMarshalVariants(gf *protogen.GeneratedFile, inf
 		gf.P("case *", wrapperType, ":")
 
 		// Add discriminator value
-		gf.P(`raw["`, info.Discriminator, `"], _ = json.Marshal("`, variant.DiscriminatorVal, `")`)
+		gf.P(`raw["`, info.Discriminator, `"], _ = json.Marshal(`, strconv.Quote(variant.DiscriminatorVal), `)`)
 
 		if info.Flatten && variant.IsMessage {
 			g.generateFlattenedMarshal(gf, variant)
@@ -330,7 +331,7 @@ func (g *Generator) generateOneofUnmarshalVariants(
 	gf.P("switch disc {")
 
 	for _, variant := range info.Variants {
-		gf.P(`case "`, variant.DiscriminatorVal, `":`)
+		gf.P(`case `, strconv.Quote(variant.DiscriminatorVal), `:`)
 
 		if info.Flatten && variant.IsMessage {
 			g.generateFlattenedUnmarshal(gf, variant, info)
